@@ -370,6 +370,22 @@ def typed_value_key(c):
         return (t, "repr", repr(value))
 
 
+def narrow_np_constant(c):
+    """numpy scalar constant whose own dtype is narrower than the type of `like` and whose shortest repr
+    (`str(value)`, what the printers emit) denotes another value in the wider type"""
+    value, like = c.operands
+    if not isinstance(value, (numpy.floating, numpy.complexfloating)) or isinstance(value, (float, complex)):
+        return False
+    try:
+        dt = interp.NP_DTYPE.get(str(like.get_type()))
+        if dt is None or numpy.dtype(dt).itemsize <= value.dtype.itemsize:
+            return False
+        with numpy.errstate(all="ignore"):
+            return interp.canon(dt(value)) != interp.canon(dt(complex(str(value)) if isinstance(value, numpy.complexfloating) else float(str(value))))
+    except Exception:  # noqa: BLE001
+        return False
+
+
 def zero_sign_blind(key):
     """typed value key with the sign bit of every zero part cleared"""
     out = []
@@ -577,6 +593,7 @@ def run_case_(case, cfg):
         res["nnodes"] = len(d.exprs)
         res["kinds"] = sorted({e.kind for e in d.exprs})
         res["alias"] = alias_report(g)
+        res["narrow_np_constant"] = any(narrow_np_constant(e) for e in d.exprs if e.kind == "constant")
         res["nan_constant"] = any(e.kind == "constant" and isinstance(e.operands[0], float) and e.operands[0] != e.operands[0] for e in d.exprs)
         if cfg.get("search", True) and not res.get("warned"):
             res["exec"] = cexec.prepare(case, g, target, tname, fname, prints, cfg)
